@@ -6,12 +6,12 @@ CONSTANTS
   Kinds <- KMixedSmall
   Workers = {w1}
   PReaders = {rp}
-  BReaders = {rb}
+  BReaders <- NoReaders
   B = 1  TXMax = 2
-  Inline = TRUE  BatchTX = TRUE  Drops = FALSE
+  Inline = FALSE  BatchTX = FALSE  Drops = TRUE
   ScrubTxLen = TRUE  ResetRawSA = TRUE  BothOnHandoff = FALSE
-  ResetSlot = TRUE  Opts <- ONone
+  ResetSlot = TRUE  Opts <- OAll
 SPECIFICATION Spec
 SYMMETRY SymClients
-INVARIANTS TypeOK SingleOwner ReleaseOnce ReplyIsOwn SilentStaysSilent AtMostOneSend LeaseBound QuiescedIff BurstBound HandoffClean FreeIsScrubbed
+INVARIANTS ReplyOptIsOwn SlotIsZeroBetweenRequests TypeOK SingleOwner ReleaseOnce ReplyIsOwn SilentStaysSilent AtMostOneSend LeaseBound QuiescedIff BurstBound HandoffClean FreeIsScrubbed
 CHECK_DEADLOCK FALSE
